@@ -26,8 +26,8 @@ def main():
             core.go_build_test(pkg, tags=tags)
             print("built", pkg, "(tags %s)" % tags)
         except core.Inconclusive as e:
-            print("WARN: could not build", pkg, str(e)[-800:])
-            ok = False
+            # not fatal: every check rebuilds what it needs and reports a build failure itself
+            print("WARN: could not pre-build", pkg, str(e)[-800:])
     # TLC smoke test
     r = core.run_tlc(os.path.join(core.WORK, "setup-tlc"), "PartialCache", "MC_PartialCache_single.cfg", timeout=300)
     print("TLC smoke test:", "ok" if r.ok() else "FAILED", r.distinct, "states")
